@@ -150,9 +150,9 @@ def lattice_tables(frames, method, periodic, L, maxd2):
 
     def d2(a, b):
         s = 0
-        for x, y in zip(a[0], b[0]):
+        for ax, (x, y) in enumerate(zip(a[0], b[0])):
             d = abs(x - y)
-            if periodic:
+            if periodic is True or (periodic and periodic[ax]):
                 d = min(d, L - d)
             s += d * d
         return s
@@ -219,9 +219,14 @@ LATTICE_CFGS = {
     "di_t4": ("MC_Tracking_di_t4.cfg", 1, 5, False, "distance", 4),
     "ov_2d": ("MC_Tracking_ov_2d.cfg", 2, 3, True, "overlap", None),
     "di_2d": ("MC_Tracking_di_2d.cfg", 2, 3, True, "distance", 2),
+    # a 4 x 4 box that is periodic along its first axis only (walls along the second)
+    "ov_2dm": ("MC_Tracking_ov_2dm.cfg", 2, 4, [True, False], "overlap", None),
+    "di_2dm": ("MC_Tracking_di_2dm.cfg", 2, 4, [True, False], "distance", 2),
+    "ov_q2dm": ("MC_Tracking_ov_q2dm.cfg", 2, 3, [True, False], "overlap", None),
+    "di_q2dm": ("MC_Tracking_di_q2dm.cfg", 2, 3, [True, False], "distance", 2),
 }
-QUICK = ["ov_q", "di_q", "di_q2", "ov_q2", "di_q3", "di_q4"]
-THOROUGH = QUICK + ["ov_t", "ov_t2", "di_t", "di_t1", "di_t0", "di_tn", "di_t4", "ov_2d", "di_2d"]
+QUICK = ["ov_q", "di_q", "di_q2", "ov_q2", "di_q3", "di_q4", "ov_q2dm", "di_q2dm"]
+THOROUGH = QUICK + ["ov_t", "ov_t2", "di_t", "di_t1", "di_t0", "di_tn", "di_t4", "ov_2d", "di_2d", "ov_2dm", "di_2dm"]
 
 
 def classify(out, pid, case, verdict_judge, res):
